@@ -36,6 +36,8 @@ TYPE_TABLE = [
     (r'^sink\s*\*$', 'struct sink *'),
     (r'^(?:tcp|ip::tcp)::socket\s*\*$', 'struct tcp_socket *'),
     (r'^(?:tcp|ip::tcp|udp|ip::udp)::endpoint\s*\*$', 'ep_t *'),
+    (r'^char$', 'char'),
+    (r'^std::array<(char|int),\s*(\d+)>$', r'ARRAY:\1:\2'),
     (r'^std::mutex$', None),   # dropped (single-threaded model, lock_guard lines dropped)
 ]
 
@@ -87,7 +89,11 @@ def gen_struct(cname, srcs, unit, manifest):
             if cty is None or cty == 'DROP':
                 continue
             sep = '' if cty.endswith('*') else ' '
-            lines.append('  %s%s%s;' % (cty, sep, name))
+            am_ = re.match(r'ARRAY:(\w+):(\d+)$', cty)
+            if am_:
+                lines.append('  %s %s[%s];' % (am_.group(1), name, am_.group(2)))   # std::array<T, N>
+            else:
+                lines.append('  %s%s%s;' % (cty, sep, name))
             if init is None:
                 # members of class type are default-constructed by C++ (scalars are left indeterminate)
                 imp = implicit_default(ty, cty)
@@ -168,8 +174,16 @@ class TU:
 
 def lowered_body(spec, unit, log):
     """extract + lower the real body; returns (C body text, Extracted)."""
-    ex = extract.find_function(spec.file, spec.function, sig=spec.sig, inclass=spec.inclass, nth=spec.nth)
+    ex = extract.find_function(spec.file, spec.function, sig=spec.sig, inclass=spec.inclass, nth=spec.nth, lambda_n=spec.lambda_n)
     body = ex.body
+    if unit.lambdas:
+        # lambda expressions become closure tokens (their bodies are functions under contract of their own: @lambda N)
+        ls = extract.find_lambdas(body)
+        for k in range(len(ls), 0, -1):
+            a, b, lp, lb = ls[k - 1]
+            body = body[:a] + 'VF_LAMBDA(%d)' % k + body[b:]
+        if ls:
+            log.append({"rule": "lambda -> closure token", "count": len(ls)})
     if spec.wrapbody is not None:
         inits = ''.join('\n%s = %s;' % (m, e if e else '0') for m, e in ex.inits)
         body = spec.wrapbody.replace('%INITS%', inits).replace('%BODY%', body)
